@@ -391,7 +391,10 @@ func (usi *UnrotatedSegmentInfo) doRangeCheckForCols(timeFilteredBlocks map[uint
 		for col := range colsToCheck {
 			cmi, ok := currInfo[col]
 			if !ok || cmi == nil || cmi.Ranges == nil {
-				if rangeOp == sutils.NotEquals {
+				// no range index: either the column is not in this block (only != can
+				// match), or it holds strings here, which may be numbers written as
+				// strings: the block cannot be excluded for a numeric comparison.
+				if rangeOp == sutils.NotEquals || (ok && cmi != nil && cmi.Bf != nil) {
 					timeFilteredBlocks[blkNum][col] = true
 					matchedBlockRange = true
 				}
